@@ -18,6 +18,9 @@ from .prims import owner_is, owner_none, wset
 INF = None
 
 
+_DEBUG = bool(__import__("os").environ.get("VF_CONC_DEBUG"))
+
+
 class Sched:
     def __init__(self, vm, K, racy=()):
         self.vm = vm
@@ -53,7 +56,14 @@ class Sched:
     def acquire(self, vm, s, lk, blocking, timeout):
         if blocking is False or (timeout is not None and timeout != -1):
             raise Unsupported("non-blocking / timed lock acquire under the scheduler")
-        if not self._resuming(s):
+        alone = False
+        if len(self.threads) <= 1 and not s.resume:
+            # no other thread has been started yet: taking a lock that is certainly available is not a scheduling point
+            from .prims import owner_none, owner_is
+            from .bexp import OR as _OR
+            ok = _OR(owner_none(lk), owner_is(lk, s.tid)) if lk.f["reentrant"] else owner_none(lk)
+            alone = ok is TRUE
+        if not alone and not self._resuming(s):
             raise Park(("acquire", lk))
         if lk.f["reentrant"]:
             from .opcodes import lift2, binop_atomic
@@ -377,6 +387,11 @@ class Sched:
             for t in list(self.threads):
                 if t in newloc:
                     self.threads[t] = self._merge(newloc[t], k, t)
+            if _DEBUG:
+                import sys as _sys, time as _time
+                print(f"[conc] step {k} t={_time.time():.0f} threads=" + ", ".join(
+                    f"{t}:{len(v)}" for t, v in self.threads.items()) + f" instr={vm.ninstr if hasattr(vm, 'ninstr') else '?'}",
+                    file=_sys.stderr, flush=True)
             self._run_prefixes()
         # horizon: nobody may still be enabled (else K is too small)
         k = self.K
